@@ -97,3 +97,28 @@ func init() {
 		return 0
 	}
 }
+
+func init() {
+	debugCmds["structural"] = func(args []string) int {
+		w, err := LoadWorld()
+		if err != nil {
+			fmt.Println(err)
+			return 1
+		}
+		for _, a := range args {
+			if len(a) > 8 && a[:8] == "emitted." {
+				if err := w.LoadEmitted(); err != nil {
+					fmt.Println("emitted:", err)
+					return 1
+				}
+			}
+			for _, r := range runStructural(w, a) {
+				fmt.Printf("%-8s %s\n   %s\n", r.Status, r.Name, r.Text)
+				if r.Raw != "" {
+					fmt.Println("   ->", r.Raw)
+				}
+			}
+		}
+		return 0
+	}
+}
